@@ -281,6 +281,7 @@ static json handle(json const &cmd)
     if (cmd.contains("cell")) P->set_cell(cmd["cell"][0], cmd["cell"][1], cmd["cell"][2]);
     P->echo_log = cmd.value("echo", false);
     P->record_fileops = cmd.value("recordFiles", false);
+    P->keep_removed = cmd.value("keepRemoved", false);
     if (cmd.contains("prefix")) {
       P->set_output_prefix(cmd["prefix"].get<std::string>());
       if (cmd.contains("restartPrefix")) P->set_restart_output_prefix(cmd["restartPrefix"].get<std::string>());
